@@ -170,6 +170,11 @@ static int URI_FUNC(RemoveBaseUriImpl)(URI_TYPE(Uri) * dest,
 					/* NOOP */
 	/* [07/50]	   if (A.authority != Base.authority) then */
 					if (!URI_FUNC(EqualsAuthority)(absSource, absBase)) {
+						if (!URI_FUNC(IsHostSet)(absSource)) {
+							/* Only the base has an authority and no reference
+							 * without scheme can get rid of it: keep the scheme */
+							dest->scheme = absSource->scheme;
+						}
 	/* [08/50]	      T.authority = A.authority; */
 						if (!URI_FUNC(CopyAuthority)(dest, absSource, memory)) {
 							return URI_ERROR_MALLOC;
@@ -179,9 +184,20 @@ static int URI_FUNC(RemoveBaseUriImpl)(URI_TYPE(Uri) * dest,
 							return URI_ERROR_MALLOC;
 						}
 	/* [10/50]	   else */
+					} else if (!URI_FUNC(IsHostSet)(absSource)
+							&& !absSource->absolutePath
+							&& (absBase->absolutePath || (domainRootMode == URI_TRUE))) {
+						/* No authority, rootless source path: neither an absolute path
+						 * reference nor a relative one merged into an absolute base path
+						 * leads back to it, so the scheme has to stay */
+						dest->scheme = absSource->scheme;
+						if (!URI_FUNC(CopyPath)(dest, absSource, memory)) {
+							return URI_ERROR_MALLOC;
+						}
 					} else {
 	/* [11/50]	      if domainRootMode then */
-						if (domainRootMode == URI_TRUE) {
+						if ((domainRootMode == URI_TRUE)
+								|| (absSource->absolutePath && !absBase->absolutePath)) {
 	/* [12/50]	         undef(T.authority); */
 							/* NOOP */
 	/* [13/50]	         if (first(A.path) == "") then */
@@ -208,21 +224,42 @@ static int URI_FUNC(RemoveBaseUriImpl)(URI_TYPE(Uri) * dest,
 							const URI_TYPE(PathSegment) * baseSeg = absBase->pathHead;
 	/* [19/50]	         bool pathNaked = true; */
 							UriBool pathNaked = URI_TRUE;
+							UriBool samePath = URI_TRUE;
 	/* [20/50]	         undef(last(Base.path)); */
-							/* NOOP */
+							/* Done by never stepping onto the last segment below */
 	/* [21/50]	         T.path = ""; */
 							dest->absolutePath = URI_FALSE;
+
+							/* The empty reference means "same document": it will do
+							 * if the paths are the same and the source has a query
+							 * of its own or none needs to be inherited from the base */
+							while ((sourceSeg != NULL) && (baseSeg != NULL)) {
+								if (URI_FUNC(CompareRange)(&sourceSeg->text, &baseSeg->text)) {
+									break;
+								}
+								sourceSeg = sourceSeg->next;
+								baseSeg = baseSeg->next;
+							}
+							if ((sourceSeg != NULL) || (baseSeg != NULL)
+									|| ((absSource->query.first == NULL)
+										&& (absBase->query.first != NULL))) {
+								samePath = URI_FALSE;
+								sourceSeg = absSource->pathHead;
+								baseSeg = absBase->pathHead;
+							}
+
 	/* [22/50]	         while (first(A.path) == first(Base.path)) do */
+							/* Skips common directories, i.e. never the last segment of a path */
 							while ((sourceSeg != NULL) && (baseSeg != NULL)
-									&& !URI_FUNC(CompareRange)(&sourceSeg->text, &baseSeg->text)
-									&& !((sourceSeg->text.first == sourceSeg->text.afterLast)
-										&& ((sourceSeg->next == NULL) != (baseSeg->next == NULL)))) {
+									&& (sourceSeg->next != NULL) && (baseSeg->next != NULL)
+									&& !URI_FUNC(CompareRange)(&sourceSeg->text, &baseSeg->text)) {
 	/* [23/50]	            A.path++; */
 								sourceSeg = sourceSeg->next;
 	/* [24/50]	            Base.path++; */
 								baseSeg = baseSeg->next;
 	/* [25/50]	         endwhile; */
 							}
+
 	/* [26/50]	         while defined(first(Base.path)) do */
 							while ((baseSeg != NULL) && (baseSeg->next != NULL)) {
 	/* [27/50]	            Base.path++; */
@@ -236,6 +273,7 @@ static int URI_FUNC(RemoveBaseUriImpl)(URI_TYPE(Uri) * dest,
 								pathNaked = URI_FALSE;
 	/* [30/50]	         endwhile; */
 							}
+
 	/* [31/50]	         while defined(first(A.path)) do */
 							while (sourceSeg != NULL) {
 	/* [32/50]	            if pathNaked then */
@@ -267,15 +305,19 @@ static int URI_FUNC(RemoveBaseUriImpl)(URI_TYPE(Uri) * dest,
 									}
 	/* [38/50]	            endif; */
 								}
+
 	/* [39/50]	            T.path += first(A.path); */
 								if (!URI_FUNC(AppendSegment)(dest, sourceSeg->text.first,
 										sourceSeg->text.afterLast, memory)) {
 									return URI_ERROR_MALLOC;
 								}
+
 	/* [40/50]	            pathNaked = false; */
 								pathNaked = URI_FALSE;
+
 	/* [41/50]	            A.path++; */
 								sourceSeg = sourceSeg->next;
+
 	/* [42/50]	            if defined(first(A.path)) then */
 								/* NOOP */
 	/* [43/50]	               T.path += + "/"; */
@@ -283,6 +325,15 @@ static int URI_FUNC(RemoveBaseUriImpl)(URI_TYPE(Uri) * dest,
 	/* [44/50]	            endif; */
 								/* NOOP */
 	/* [45/50]	         endwhile; */
+							}
+
+							/* Nothing to write (source path "" or "/") but not
+							 * the same document: "." is the shortest way to say so */
+							if ((dest->pathHead == NULL) && !samePath) {
+								if (!URI_FUNC(AppendSegment)(dest, URI_FUNC(ConstPwd),
+										URI_FUNC(ConstPwd) + 1, memory)) {
+									return URI_ERROR_MALLOC;
+								}
 							}
 	/* [46/50]	      endif; */
 						}
